@@ -61,6 +61,10 @@ RequestOperation(a, op) == Msg("RequestOperation", a, op, 0, <<>>)
 AckOperation(a, op)     == Msg("AckOperation", a, op, 0, <<>>)
 Unknown(f)              == Msg("Unknown", f.addr, "", f.type, f.data)
 
+\* what a bus can hand back besides a message: nothing, or an error
+NoReply == Msg("None", 0, "", 0, <<>>)
+BusErr  == Msg("BusError", 0, "", 0, <<>>)
+
 Specific(m) == m.k # "Unknown"
 
 \* Is (type, length, first byte) an entry of the protocol table?
